@@ -29,6 +29,8 @@ pub struct Prof {
     pub fe_zero: bool,
     /// weight of Settle ops
     pub settle: u32,
+    /// weight of the "capacity / limit above 1024" shape
+    pub huge: u32,
 }
 
 pub fn profile(prop: u32) -> Prof {
@@ -46,6 +48,7 @@ pub fn profile(prop: u32) -> Prof {
         early_drop: 1,
         fe_zero: false,
         settle: 2,
+        huge: 0,
     };
     match prop {
         1 => Prof {
@@ -134,6 +137,7 @@ pub fn profile(prop: u32) -> Prof {
             subjects: vec![(2, UB), (2, MB), (2, BU), (2, TBU), (2, FE), (1, JA), (1, TJA), (4, UU), (4, OU), (4, MU)],
             oscillate: 60,
             big: 15,
+            huge: 3,
             ..base
         },
         _ => base,
@@ -172,6 +176,8 @@ fn script(max: usize) -> impl Strategy<Value = Vec<SStep>> {
 
 #[derive(Clone, Copy)]
 pub struct PlanCtx {
+    /// joins only: some inputs panic in their first polls (the caller catches the unwind and polls again)
+    can_panic: bool,
     source: bool,
     can_fail: bool,
     p_forever: u32,
@@ -188,6 +194,7 @@ pub fn plan(c: PlanCtx) -> BoxedStrategy<Plan> {
     } else {
         Just(false).boxed()
     };
+    let pan = if c.can_panic { prop_oneof![12 => Just(0u8), 1 => 1u8..3].boxed() } else { Just(0u8).boxed() };
     (
         ready,
         fail,
@@ -198,8 +205,9 @@ pub fn plan(c: PlanCtx) -> BoxedStrategy<Plan> {
         action(),
         scr,
         inf,
+        pan,
     )
-        .prop_map(|(ready, fail, self_wake, stash, woc, on_poll, on_drop, script, infinite)| Plan {
+        .prop_map(|(ready, fail, self_wake, stash, woc, on_poll, on_drop, script, infinite, panic_polls)| Plan {
             ready,
             fail,
             self_wake,
@@ -209,6 +217,7 @@ pub fn plan(c: PlanCtx) -> BoxedStrategy<Plan> {
             on_drop,
             script,
             infinite,
+            panic_polls,
         })
         .boxed()
 }
@@ -296,6 +305,7 @@ fn upstream(max: usize, try_: bool) -> impl Strategy<Value = Vec<SStep>> {
 
 fn cfg_for(subj: Subj, prof: &Prof, big: bool) -> BoxedStrategy<Cfg> {
     let pc_f = PlanCtx {
+        can_panic: false,
         source: false,
         can_fail: subj.is_try(),
         p_forever: prof.p_forever,
@@ -303,6 +313,7 @@ fn cfg_for(subj: Subj, prof: &Prof, big: bool) -> BoxedStrategy<Cfg> {
         p_infinite: 0,
     };
     let pc_s = PlanCtx {
+        can_panic: false,
         source: true,
         can_fail: false,
         p_forever: prof.p_forever,
@@ -377,7 +388,7 @@ fn cfg_for(subj: Subj, prof: &Prof, big: bool) -> BoxedStrategy<Cfg> {
                 .boxed()
         }
         Subj::JA | Subj::TJA => (
-            vec(plan(PlanCtx { p_ready: 40, ..pc_f }), if big { 0usize..140 } else { 0usize..12 }),
+            vec(plan(PlanCtx { p_ready: 40, can_panic: true, ..pc_f }), if big { 0usize..140 } else { 0usize..12 }),
             prop_oneof![2 => Just(2u8), 1 => Just(3u8)],
         )
             .prop_map(|(initial, ctor)| Cfg {
@@ -392,6 +403,7 @@ fn cfg_for(subj: Subj, prof: &Prof, big: bool) -> BoxedStrategy<Cfg> {
 /// the generic shape: configuration + free sequence of ops
 fn free_shape(subj: Subj, prof: &Prof, big: bool) -> BoxedStrategy<Case> {
     let pc = PlanCtx {
+        can_panic: false,
         source: subj.is_merge(),
         can_fail: subj.is_try(),
         p_forever: prof.p_forever,
@@ -569,6 +581,7 @@ fn adversarial_shape(subj: Subj, prof: &Prof) -> BoxedStrategy<Case> {
 /// oscillation shape (C18): fill / drain patterns repeated r times
 fn oscillation_shape(subj: Subj, prof: &Prof) -> BoxedStrategy<Case> {
     let pc = PlanCtx {
+        can_panic: false,
         source: subj.is_merge(),
         can_fail: false,
         p_forever: 0,
@@ -625,6 +638,7 @@ fn oscillation_shape(subj: Subj, prof: &Prof) -> BoxedStrategy<Case> {
 /// head-of-line shape for ordered subjects: everything behind the head completes, the head stalls
 fn head_stall_shape(subj: Subj, prof: &Prof) -> BoxedStrategy<Case> {
     let pc = PlanCtx {
+        can_panic: false,
         source: false,
         can_fail: subj.is_try(),
         p_forever: 0,
@@ -654,6 +668,70 @@ fn head_stall_shape(subj: Subj, prof: &Prof) -> BoxedStrategy<Case> {
         .boxed()
 }
 
+/// capacities / limits above 1024 (and around 2048, 4096) with that many children really in flight
+fn huge_shape(subj: Subj, _prof: &Prof) -> BoxedStrategy<Case> {
+    (
+        prop_oneof![4 => 1025usize..1200, 1 => 2049usize..2120, 1 => 4097usize..4140],
+        waker_idx(),
+        0usize..80,
+    )
+        .prop_map(move |(limit, wk, extra)| {
+            let pending = Plan {
+                stash: 1,
+                ..Plan::default()
+            };
+            let mut cfg = Cfg {
+                cap: limit,
+                ..Cfg::default()
+            };
+            let mut ops = Vec::new();
+            let total = limit + extra;
+            match subj {
+                Subj::UB | Subj::OB => {
+                    cfg.ctor = 0;
+                    for _ in 0..(total / 250 + 1) {
+                        ops.push(Op::PushMany(250, pending.clone()));
+                    }
+                }
+                Subj::MB | Subj::JA | Subj::TJA => {
+                    cfg.ctor = 2;
+                    cfg.initial = vec![
+                        Plan {
+                            script: vec![SStep::Pend(false), SStep::Item],
+                            ..pending.clone()
+                        };
+                        limit
+                    ];
+                }
+                Subj::UU | Subj::OU | Subj::MU => {
+                    cfg.ctor = 0;
+                    for _ in 0..(total / 250 + 1) {
+                        ops.push(Op::PushMany(250, pending.clone()));
+                    }
+                }
+                _ => {
+                    cfg.upstream = vec![SStep::Item; total];
+                    cfg.up_plans = vec![pending.clone(); total];
+                }
+            }
+            for _ in 0..3 {
+                ops.push(Op::Exec(wk, 250));
+            }
+            for _ in 0..(total / 200 + 2) {
+                ops.push(Op::CompleteMany(0, 255));
+                ops.push(Op::Exec(wk, 250));
+                ops.push(Op::Exec(wk, 250));
+            }
+            Case {
+                subj,
+                cfg,
+                ops,
+                repolls: 0,
+            }
+        })
+        .boxed()
+}
+
 pub fn case_strategy(prop: u32) -> BoxedStrategy<Case> {
     let prof = profile(prop);
     let mut per_subject: Vec<(u32, BoxedStrategy<Case>)> = Vec::new();
@@ -669,6 +747,9 @@ pub fn case_strategy(prop: u32) -> BoxedStrategy<Case> {
         }
         if prof.oscillate > 0 {
             shapes.push((prof.oscillate, oscillation_shape(s, &prof)));
+        }
+        if prof.huge > 0 {
+            shapes.push((prof.huge, huge_shape(s, &prof)));
         }
         if prof.head_stall > 0 && s.is_ordered() {
             shapes.push((prof.head_stall, head_stall_shape(s, &prof)));
